@@ -65,6 +65,9 @@ BREAKING = [
     ('conflict-first-pair-skipped', 'C08', MAIN + 'parser.rs', r'if elem_indices\.is_empty\(\) \|\| \(elem_indices == new_elem_indices\)', 'if elem_indices.len() < 2 || (elem_indices == new_elem_indices)', 'choice conflict not checked for top-level alternatives'),
     ('common-group-stops-early', 'C18', SPEC + 'lib.rs', r'SubElement::Group\(groupid\) => \{\n(\s*)result = \*groupid;\n', 'SubElement::Group(groupid) => {\n\\1if prefix_len == 0 { result = *groupid; }\n', 'find_common_group names the outermost group only'),
     ('container-mode-own-type', 'C18', SPEC + 'lib.rs', r'if element_indices\.len\(\) < 2 \{\n(\s*)// length == 1', 'if element_indices.len() < 3 {\n\\1// length == 1', 'container mode of a grouped element read from the type'),
+    ('parse-element-multiplicity-result-dropped', 'C08', MAIN + 'parser.rs', r'self\.check_multiplicity\(name, element\.elemtype, &elem_idx, &element\)\?;', 'let _ = self.check_multiplicity(name, element.elemtype, &elem_idx, &element);', 'repeated single-occurrence element accepted (result of the check dropped)'),
+    ('parse-element-shortname-check-lenient-only', 'C08', MAIN + 'parser.rs', r'\} else if element\.elemtype\.is_named_in_version\(self\.fileversion\) \{', '} else if element.elemtype.is_named_in_version(self.fileversion) && !self.strict {', 'missing SHORT-NAME accepted by strict loading'),
+    ('parse-element-multiplicity-skipped-when-advancing', 'C08', MAIN + 'parser.rs', r'if !element\.content\.is_empty\(\) \{\n(\s*)self\.check_multiplicity', 'if !element.content.is_empty() && element.content.len() % 2 == 1 {\n\\1self.check_multiplicity', 'multiplicity checked only for every other child'),
 ]
 
 HARMLESS = [
